@@ -410,6 +410,7 @@ def run(ctx):
     c02_passes.tie_prune_touches_inputs_only(ctx, 100 if ctx.tier == "quick" else 1000)
     c02_passes.tie_dropout_pass(ctx, 150 if ctx.tier == "quick" else 1500)
     c02_passes.tie_propagate_elementwise_shapes(ctx, 150 if ctx.tier == "quick" else 1500)
+    c02_passes.tie_dce_pass(ctx, 150 if ctx.tier == "quick" else 1500)
     items, res = enumerate_graphs(ctx)
     import collections
     st = collections.Counter(r["status"] for r in res)
